@@ -141,6 +141,14 @@ func (c *Config) ReadConfig(configFilePath string, flagSet *pflag.FlagSet, categ
 		return fmt.Errorf("unable to unmarshal config: %w", err)
 	}
 
+	// The networks are selected with the command-line flags only. Assign them
+	// again after unmarshalling so that a network value found in the config
+	// file cannot move one of the chains to a different network.
+	if flagSet != nil {
+		c.Ethereum.Network = clientNetwork.Ethereum()
+		c.Bitcoin.Network = clientNetwork.Bitcoin()
+	}
+
 	// Resolve contracts addresses.
 	c.resolveContractsAddresses()
 
